@@ -24,7 +24,7 @@ type Case struct {
 	W  int      `json:"w,omitempty"`  // fallback
 	P  []int    `json:"p,omitempty"`  // callback parameters: acc a b c m | pred m | key m | conv a b m r | eq m-or-d
 	R  []int    `json:"r,omitempty"`  // residues of a predicate
-	Eq string   `json:"eq,omitempty"` // "mod" | "near"
+	Eq string   `json:"eq,omitempty"` // "mod" | "near" | "le"
 }
 
 func init() {
@@ -82,8 +82,11 @@ func convOf(p []int) func(v int) (int, error) {
 	}
 }
 func eqOf(kind string, p int) func(a, b int) bool {
-	if kind == "near" {
+	switch kind {
+	case "near":
 		return func(a, b int) bool { return abs(a-b) <= p }
+	case "le":
+		return func(a, b int) bool { return a-b <= p }
 	}
 	return func(a, b int) bool { return mod(a-b, p) == 0 }
 }
@@ -97,8 +100,11 @@ func coqConv(p []int) string {
 	return fmt.Sprintf("(Conv %s %s %s %s)", core.Z(p[0]), core.Z(p[1]), core.Z(p[2]), core.Z(p[3]))
 }
 func coqEq(kind string, p int) string {
-	if kind == "near" {
+	switch kind {
+	case "near":
 		return fmt.Sprintf("(EqNear %s)", core.Z(p))
+	case "le":
+		return fmt.Sprintf("(EqLe %s)", core.Z(p))
 	}
 	return fmt.Sprintf("(EqMod %s)", core.Z(p))
 }
@@ -409,10 +415,10 @@ func execSlice(c *core.Ctx, cs Case) {
 		var got []int
 		call(func() { got = slices.DistinctFunc(in, eq) })
 		noPanic()
-		if cs.Eq == "near" {
-			expectList(got, refGreedy(l, eq), "elements not equal to an element kept before")
-		} else {
+		if cs.Eq == "mod" || (cs.Eq == "le" && cs.P[0] == 0) { // transitive
 			expectList(got, refFirstOccs(l, eq), "first occurrences up to equals, in original order")
+		} else {
+			expectList(got, refGreedy(l, eq), "elements not equal(kept element, element) to an element kept before")
 		}
 		if kind == "" {
 			term = fmt.Sprintf("CDistinctFunc %s %s %s", L, coqEq(cs.Eq, cs.P[0]), core.ZList(got))
@@ -849,9 +855,9 @@ func run(c *core.Ctx) {
 		for _, e := range []struct {
 			k string
 			p int
-		}{{"mod", 2}, {"mod", 1}, {"near", 1}} {
+		}{{"mod", 2}, {"mod", 1}, {"near", 1}, {"le", 0}, {"le", -1}} {
 			exec(c, Case{Fn: "DistinctFunc", L: l, Eq: e.k, P: []int{e.p}})
-			exec(c, Case{Fn: "ContainsFunc", L: l, V: 3, Eq: e.k, P: []int{e.p}})
+			exec(c, Case{Fn: "ContainsFunc", L: l, V: 1, Eq: e.k, P: []int{e.p}})
 		}
 		exec(c, Case{Fn: "Map", L: l, P: []int{2, 1, 1, 5}})
 		for r := 0; r <= 3; r++ { // r = 3 never errs
@@ -902,7 +908,7 @@ func run(c *core.Ctx) {
 	gen(0, nil)
 	c.Exhaustive = true
 	c.Note(fmt.Sprintf("exhaustive: all lists of length <= %d over {0,1,2} x 23 slice functions x fixed callback families "+
-		"(3 accumulators x 2 seeds, 3 predicates, 3 keyers, 4 converters, 3 equalities, 4 unwanted/exclude sets); "+
+		"(3 accumulators x 2 seeds, 3 predicates, 3 keyers, 4 converters, 5 equalities, 4 unwanted/exclude sets); "+
 		"index family on all lengths 0..6 x all indices -2..n+1; all 27 maps with keys in {0,1,2}, values in {0,1} x 7 map functions; plus random", maxLen))
 
 	// random: longer lists with duplicates and negative values, random callback parameters
@@ -944,8 +950,10 @@ func run(c *core.Ctx) {
 			cs.V = r.Range(-1, 10)
 		case "ContainsFunc", "DistinctFunc":
 			cs.V = r.Range(-1, 10)
-			if r.Chance(30) {
+			if r.Chance(25) {
 				cs.Eq, cs.P = "near", []int{r.Range(0, 3)}
+			} else if r.Chance(35) {
+				cs.Eq, cs.P = "le", []int{r.Range(-2, 1)}
 			} else {
 				cs.Eq, cs.P = "mod", []int{r.Range(1, 6)}
 			}
